@@ -50,9 +50,16 @@ def code_lines(path):
     """(lineno, text) of lines outside the test module, comments and attributes"""
     out = []
     lines = open(path).read().split("\n")
+    in_block = False
     for i, l in enumerate(lines):
         if re.match(r"\s*#\[cfg\(test\)\]", l): break
         s = l.strip()
+        if in_block:
+            if "*/" in s: in_block = False
+            continue
+        if s.startswith("/*"):
+            if "*/" not in s: in_block = True
+            continue
         if not s or s.startswith("//") or s.startswith("#[") or s.startswith("use ") or s.startswith("pub use "): continue
         if s.startswith("#![") or s.startswith("macro_rules") or s.startswith("extern crate"): continue
         out.append((i, l))
